@@ -369,10 +369,24 @@ def decide(d: dict, args: dict, inv: int, tag: str) -> Any:
     raise ValueError(f"unknown decide op {op}")
 
 
+_FALSY = {"zero": 0, "false": False, "empty_str": "", "empty_list": []}
+
+
 def interrupt_response(spec: dict, args: dict) -> Any:
+    """What a handler answers (and what the harness answers on resume). ``resp`` kinds other than
+    the default produce falsy-but-not-None answers (0, False, "", []), which are perfectly legal."""
     outs = spec.get("outs", [])
     tag = spec.get("fid", spec["name"])
     basis = [(k, canon(v)) for k, v in sorted(args.items())]
+    kinds = spec.get("resp") or []
+
+    def one(j: int) -> Any:
+        k = kinds[j] if j < len(kinds) else None
+        if k in _FALSY:
+            v = _FALSY[k]
+            return list(v) if isinstance(v, list) else v
+        return mix(tag, "resp", j, basis)
+
     if len(outs) <= 1:
-        return mix(tag, "resp", 0, basis)
-    return {o: mix(tag, "resp", j, basis) for j, o in enumerate(outs)}
+        return one(0)
+    return {o: one(j) for j, o in enumerate(outs)}
